@@ -78,6 +78,8 @@ pub enum Op {
     /// 4 AccessConvert, 5 Map over &container
     AccLoad { c: usize, p: usize, kind: u32 },
     DerefP { p: usize },
+    /// serde: serialize the container (C20)
+    Ser { c: usize },
     DropP { p: usize },
     /// A few steps doing nothing (scheduling points only)
     Nop,
@@ -109,6 +111,16 @@ impl<G: std::ops::Deref<Target = crate::vptr::Inner>> ProjG for PInner<G> {
         let tag = self.0.tag.load(std::sync::atomic::Ordering::Relaxed);
         (tag, true, tag)
     }
+}
+/// a projection of a Constant: must always show the constant itself
+struct PConst<G: std::ops::Deref<Target = u32>>(G, u32);
+impl<G: std::ops::Deref<Target = u32>> ProjG for PConst<G> {
+    fn see(&self) -> (u32, bool, u32) {
+        (*self.0, true, self.1)
+    }
+}
+fn id_u32(c: &u32) -> &u32 {
+    c
 }
 struct PObj<G: std::ops::Deref<Target = crate::vptr::Obj>>(G);
 impl<G: std::ops::Deref<Target = crate::vptr::Obj>> ProjG for PObj<G> {
@@ -759,6 +771,28 @@ where
                     let a = AccessConvert(m);
                     Box::new(PObj(Access::<crate::vptr::Obj>::load(&a)))
                 }
+                6 | 7 | 8 => {
+                    // Constant always yields its own value, also through Map / Map of Map / dynamic dispatch
+                    use arc_swap::access::Constant;
+                    let k = 4000 + *p as u32;
+                    let pb: Box<dyn ProjG> = if *kind == 6 {
+                        Box::new(PConst(Access::<u32>::load(&Map::new(Constant(k), id_u32 as fn(&u32) -> &u32)), k))
+                    } else if *kind == 7 {
+                        let m2 = Map::new(Map::new(Constant(k), id_u32 as fn(&u32) -> &u32), id_u32 as fn(&u32) -> &u32);
+                        Box::new(PConst(Access::<u32>::load(&m2), k))
+                    } else {
+                        let m: Box<dyn DynAccess<u32>> = Box::new(Map::new(Constant(k), id_u32 as fn(&u32) -> &u32));
+                        Box::new(PConst(DynAccess::load(&*m), k))
+                    };
+                    // not a snapshot of the container: only the dereference is checked
+                    let (got, _, want) = pb.see();
+                    sched::log(json!({"e": "deref", "t": sched::tid() as i64, "k": "k", "r": *p as i64, "o": got as i64, "alive": true, "tag": want as i64}));
+                    let pb2 = pb; // moved once more
+                    let (got, _, want) = pb2.see();
+                    sched::log(json!({"e": "deref", "t": sched::tid() as i64, "k": "k", "r": *p as i64, "o": got as i64, "alive": true, "tag": want as i64}));
+                    ret("noop", *c as i64, 0, 0, 0);
+                    return;
+                }
                 _ => {
                     // the container's own map() over a reference: the guard borrows, so evaluate it here
                     let m = cont.map(proj_obj as fn(&T) -> &crate::vptr::Obj);
@@ -772,6 +806,13 @@ where
             let (id, _alive, _tag) = pb.see();
             put(&mut wl(w).projs, *p, ProjBox(pb));
             ret("acc_load", *c as i64, id as i64, *p as i64, 0);
+        }
+        Op::Ser { c } => {
+            let Some(cont) = cont(w, *c) else { return };
+            inv("ser", *c as i64, 0, 0, 0);
+            let v = serde_json::to_value(&*cont).unwrap_or(serde_json::Value::Null);
+            let id = v.as_i64().unwrap_or(0);
+            ret("ser", *c as i64, id, 0, 0);
         }
         Op::DerefP { p } => {
             let gd = wl(w);
